@@ -6,7 +6,40 @@ use serde_json::Value;
 
 pub fn run(scn: &Obj) -> Value {
     let bits = scn["bits"].as_u64().unwrap() as usize;
+    if scn["op"] == "wmul" {
+        return run_wide(scn);
+    }
     w!(bits, run_w, scn)
+}
+
+fn wide<const BA: usize, const LA: usize, const BB: usize, const LB: usize, const BR: usize, const LR: usize>(
+    scn: &Obj,
+) -> Value {
+    let mut ev = Ev::new(scn);
+    let a: Uint<BA, LA> = j_to_uint(&scn["a"]);
+    let b: Uint<BB, LB> = j_to_uint(&scn["b"]);
+    ev.rec("wide", || a.widening_mul::<BB, LB, BR, LR>(b));
+    ev.finish()
+}
+
+macro_rules! wide_pairs {
+    ($scn:expr, $ba:expr, $bb:expr, [$(($a:literal, $b:literal)),* $(,)?]) => {
+        match ($ba, $bb) {
+            $( ($a, $b) => wide::<$a, { ruint::nlimbs($a) }, $b, { ruint::nlimbs($b) }, { $a + $b }, { ruint::nlimbs($a + $b) }>($scn), )*
+            other => panic!("widening pair {other:?} is not compiled into the executor"),
+        }
+    };
+}
+
+fn run_wide(scn: &Obj) -> Value {
+    let ba = scn["bits"].as_u64().unwrap() as usize;
+    let bb = scn["bits2"].as_u64().unwrap() as usize;
+    wide_pairs!(scn, ba, bb, [
+        (0, 0), (0, 64), (64, 0), (1, 1), (1, 63), (63, 1), (7, 9), (32, 32), (63, 65), (64, 64), (65, 63),
+        (64, 128), (128, 64), (100, 28), (127, 129), (128, 128), (129, 127), (192, 64), (64, 192),
+        (250, 6), (256, 256), (255, 257), (256, 64), (64, 256), (320, 192), (384, 128), (512, 512),
+        (1, 255), (13, 500), (521, 55)
+    ])
 }
 
 fn run_w<const B: usize, const L: usize>(scn: &Obj) -> Value {
